@@ -125,7 +125,7 @@ func vf01Pool(f []string) string {
 		arg := op[1:]
 		switch op[0] {
 		case 'A':
-			got, err := p.Allocate("s" + arg)
+			got, err := p.Allocate(vf01Nm('s', arg))
 			if err != nil {
 				res = append(res, vf01Err(err))
 			} else {
@@ -133,7 +133,7 @@ func vf01Pool(f []string) string {
 			}
 		case 'R':
 			q := strings.SplitN(arg, ",", 2)
-			res = append(res, vf01Err(p.Reserve(vf01IP(q[1]), "s"+q[0])))
+			res = append(res, vf01Err(p.Reserve(vf01IP(q[1]), vf01Nm('s', q[0]))))
 		case 'L':
 			res = append(res, vf01Err(p.Release(vf01IP(arg))))
 		case 'C':
@@ -190,7 +190,7 @@ func vf01PD(f []string) string {
 		arg := op[1:]
 		switch op[0] {
 		case 'A':
-			got, err := p.Allocate("s" + arg)
+			got, err := p.Allocate(vf01Nm('s', arg))
 			if err != nil {
 				res = append(res, vf01Err(err))
 			} else {
@@ -198,7 +198,7 @@ func vf01PD(f []string) string {
 			}
 		case 'R':
 			q := strings.SplitN(arg, ",", 2)
-			res = append(res, vf01Err(p.Reserve(vf01Pfx(q[1]), "s"+q[0])))
+			res = append(res, vf01Err(p.Reserve(vf01Pfx(q[1]), vf01Nm('s', q[0]))))
 		case 'L':
 			p.Release(vf01Pfx(arg))
 			res = append(res, "ok")
@@ -216,11 +216,35 @@ func vf01PD(f []string) string {
 	return strings.Join(res, " ")
 }
 
+// Names from tokens.  Most tokens n give "<kind>n"; a few give names that differ from another one only in
+// case, by being its prefix / extension, or by being empty - so that a comparison that folds case, looks at a
+// prefix only or treats "" specially is visible.  (s: session ids, v: VRFs, p: profiles, n: pools.)
+var vf01Alias = map[string]string{"s5": "S1", "s6": "s11", "s7": "", "s8": "s", "v3": "V1", "v4": "v11", "p7": "P1", "n7": "N1"}
+
+func vf01Nm(kind byte, tok string) string {
+	if a, ok := vf01Alias[string(kind)+tok]; ok {
+		return a
+	}
+	return string(kind) + tok
+}
+
+func vf01UnNm(kind byte, name string) string {
+	for k, a := range vf01Alias {
+		if k[0] == kind && a == name {
+			return k[1:]
+		}
+	}
+	if len(name) < 2 {
+		return "?" + name
+	}
+	return name[1:]
+}
+
 func vf01Name(pfx, tok string) string {
 	if tok == "0" {
 		return ""
 	}
-	return pfx + tok
+	return vf01Nm(pfx[0], tok)
 }
 
 func vf01AddrStr(tok string) string {
@@ -242,7 +266,7 @@ func vf01BuildProfiles(f []string) (map[string]*ip.IPv4Profile, map[string]*ip.I
 	v4p := map[string]*ip.IPv4Profile{}
 	v6p := map[string]*ip.IPv6Profile{}
 	for i := 0; i < np; i++ {
-		pfname := "p" + f[p]
+		pfname := vf01Nm('p', f[p])
 		fam := f[p+1]
 		pgw := vf01AddrStr(f[p+2])
 		nk, _ := strconv.Atoi(f[p+3])
@@ -255,7 +279,7 @@ func vf01BuildProfiles(f []string) (map[string]*ip.IPv4Profile, map[string]*ip.I
 			v6p[pfname] = &ip.IPv6Profile{}
 		}
 		for j := 0; j < nk; j++ {
-			name := "n" + f[p]
+			name := vf01Nm('n', f[p])
 			prio, _ := strconv.Atoi(f[p+1])
 			vrf := vf01Name("v", f[p+2])
 			network := f[p+3]
@@ -382,7 +406,7 @@ func vf01Which(before, after map[string]int, err error, release bool) string {
 
 func vf01Key(t string) string { // <pf>/<pool>
 	q := strings.Split(t, "/")
-	return "p" + q[0] + "/n" + q[1]
+	return vf01Nm('p', q[0]) + "/" + vf01Nm('n', q[1])
 }
 
 func vf01Unkey(k string) string {
@@ -390,10 +414,10 @@ func vf01Unkey(k string) string {
 		return k
 	}
 	q := strings.Split(k, "/")
-	if len(q) != 2 || len(q[0]) < 2 || len(q[1]) < 2 {
+	if len(q) != 2 {
 		return "?" + k
 	}
-	return q[0][1:] + "/" + q[1][1:]
+	return vf01UnNm('p', q[0]) + "/" + vf01UnNm('n', q[1])
 }
 
 func vf01Reg(f []string) string {
@@ -422,7 +446,7 @@ func vf01Reg(f []string) string {
 		q := strings.Split(op[2:], ",")
 		switch op[0] {
 		case 'A': // A<f><sid>,<profile>,<override>,<vrf>
-			pf, ov, vrf, sid := "p"+q[1], vf01Name("n", q[2]), vf01Name("v", q[3]), "s"+q[0]
+			pf, ov, vrf, sid := vf01Nm('p', q[1]), vf01Name("n", q[2]), vf01Name("v", q[3]), vf01Nm('s', q[0])
 			var shown, pool string
 			var err error
 			switch fam {
@@ -457,7 +481,7 @@ func vf01Reg(f []string) string {
 		case 'P', 'R': // P<f><sid>,<key>,<arg>   R<f><sid>,<arg>
 			var err error
 			arg := q[len(q)-1]
-			sid := "s" + q[0]
+			sid := vf01Nm('s', q[0])
 			before := vf01Snapshot(r, fam, arg, sid)
 			direct := false
 			if op[0] == 'P' {
@@ -535,11 +559,11 @@ func vf01Reg(f []string) string {
 			var l []string
 			switch fam {
 			case '4':
-				l = r.GetProfilePools("p" + q[0])
+				l = r.GetProfilePools(vf01Nm('p', q[0]))
 			case 'n':
-				l = r.profileIANAPools["p"+q[0]]
+				l = r.profileIANAPools[vf01Nm('p', q[0])]
 			default:
-				l = r.profilePDPools["p"+q[0]]
+				l = r.profilePDPools[vf01Nm('p', q[0])]
 			}
 			s := "o"
 			for _, k := range l {
